@@ -47,10 +47,34 @@ def check_python(report):
             ("resource_path_formatted", "self.PATH_ARG_RE.sub('{\\\\g<1>}', self.resource_path or '')", "substitution of each variable by {name}")):
         mem = m.member(mt, prop)
         r1.need(mem is not None, f"MessageType.{prop}")
-        rets = [n for n in ast.walk(mem.node) if isinstance(n, ast.Return)]
+        from ..pymodel import nmatch
+        pfi_ = m.func(f"gapic.schema.wrappers.MessageType.{prop}")
+        alts = [pattern]
+        if prop == "resource_path_args":        # PATH_ARG_RE has exactly one group (checked above): findall == [m.group(1) for m in finditer]
+            alts += ["[_M_.group(1) for _M_ in self.PATH_ARG_RE.finditer(self.resource_path or '')]",
+                     "list((_M_.group(1) for _M_ in self.PATH_ARG_RE.finditer(self.resource_path or '')))",
+                     "[_M_.groups()[0] for _M_ in self.PATH_ARG_RE.finditer(self.resource_path or '')]"]
+        else:                                   # a callable replacement returning '{' + group 1 + '}' is the template r'{\g<1>}'
+            alts += ["self.PATH_ARG_RE.sub(lambda _M_: '{' + _M_.group(1) + '}', self.resource_path or '')",
+                     "self.PATH_ARG_RE.sub(lambda _M_: f'{{{_M_.group(1)}}}', self.resource_path or '')"]
+        ok_ = any(nmatch(m, a_, pfi_, keep={"PATH_ARG_RE"}) is not None for a_ in alts)
+        if not ok_ and prop == "resource_path_formatted":
+            # replacement given as a named local function
+            from ..pymodel import nfunc
+            nf_ = nfunc(m, pfi_, keep={"PATH_ARG_RE"})
+            defs_ = {d.name: d for d in ast.walk(pfi_.node) if isinstance(d, ast.FunctionDef) and d is not pfi_.node}
+            for c_ in ast.walk(pfi_.node):
+                if isinstance(c_, ast.Call) and ast.unparse(c_.func) == "self.PATH_ARG_RE.sub" and len(c_.args) == 2 and isinstance(c_.args[0], ast.Name) \
+                        and c_.args[0].id in defs_:
+                    d_ = defs_[c_.args[0].id]
+                    body_ = [x for x in d_.body if not (isinstance(x, ast.Expr) and isinstance(x.value, ast.Constant))]
+                    arg_ = d_.args.args[0].arg if d_.args.args else "m"
+                    if len(body_) == 1 and isinstance(body_[0], ast.Return):
+                        from ..pynorm import norm_expr
+                        got_ = ast.unparse(norm_expr(body_[0].value))
+                        ok_ = got_ in (ast.unparse(norm_expr(ast.parse(f"'{{' + {arg_}.group(1) + '}}'", mode="eval").body)),)
         r1.instance(prop)
-        r1.check(len(rets) == 1 and pmatch(pattern, rets[0].value) is not None, p, mem.node.lineno, ast.unparse(rets[0].value) if rets else "",
-                 f"{prop} must be {what}")
+        r1.check(ok_, p, mem.node.lineno, prop, f"{prop} must be {what}")
     rp = m.member(mt, "resource_path")
     rets = [n for n in ast.walk(rp.node) if isinstance(n, ast.Return)]
     r1.instance("resource_path")
